@@ -137,7 +137,62 @@ fn one_case(sink: &mut Sink, rng: &mut Rng, max_depth: u8, cells: &[VC], from: u
   let _ = rng;
 }
 
+/// The sky map reader with a positive `skip` value: the skipped (lowest) pixels are the HEAD of the ascending order
+/// (their value is removed from both thresholds there) and the TAIL of the descending one (nothing to remove); a pixel
+/// that is not a value (HEALPix UNSEEN = -1.6375e30, NaN) belongs to no selection and shifts no threshold.
+/// Depth-1 NESTED map of 48 pixels with pairwise different consecutive values (so that the map cells are the pixels).
+fn skymap_cases(sink: &mut Sink) {
+  use moc::deser::fits::skymap::from_fits_skymap;
+  use std::io::{BufReader, Cursor};
+  fn card(s: String) -> Vec<u8> { let mut v = s.into_bytes(); v.resize(80, b' '); v }
+  fn block(cards: Vec<String>) -> Vec<u8> {
+    let mut v = Vec::new();
+    for c in cards { v.extend(card(c)); }
+    v.extend(card("END".to_string()));
+    while v.len() % 2880 != 0 { v.push(b' '); }
+    v
+  }
+  let ki = |k: &str, v: u64| format!("{:<8}= {:>20}", k, v);
+  let ks = |k: &str, v: &str| format!("{:<8}= '{}'", k, v);
+  for variant in 0..3u32 {
+    // values: 4, 8, 12, 16 in turn (never two equal neighbours), a few small ones (1, 2) to be skipped
+    let mut vals: Vec<f64> = (0..48u64).map(|i| (4 * (1 + (i * 7 + i / 5) % 4)) as f64).collect();
+    for i in [3usize, 10, 22, 41] { vals[i] = if i % 2 == 0 { 2.0 } else { 1.0 }; }
+    for i in 1..48 { if vals[i] == vals[i - 1] { vals[i] += 16.0; } }
+    if variant == 1 { vals[47] = -1.6375e30; }
+    if variant == 2 { vals[30] = f64::NAN; }
+    let mut f = block(vec![format!("{:<8}= {:>20}", "SIMPLE", "T"), ki("BITPIX", 8), ki("NAXIS", 0), format!("{:<8}= {:>20}", "EXTEND", "T")]);
+    f.extend(block(vec![ks("XTENSION", "BINTABLE"), ki("BITPIX", 8), ki("NAXIS", 2), ki("NAXIS1", 8), ki("NAXIS2", 48), ki("PCOUNT", 0), ki("GCOUNT", 1), ki("TFIELDS", 1),
+      ks("TTYPE1", "PROB"), ks("TFORM1", "D"), ks("PIXTYPE", "HEALPIX"), ks("ORDERING", "NESTED"), ks("COORDSYS", "C"), ki("MOCORDER", 1), ks("INDXSCHM", "IMPLICIT")]));
+    for x in &vals { f.extend_from_slice(&x.to_be_bytes()); }
+    while f.len() % 2880 != 0 { f.push(0); }
+    for skip in [0.0f64, 2.0] {
+      let kept: Vec<VC> = vals.iter().enumerate().filter(|(_, v)| v.is_finite() && **v > skip).map(|(i, v)| VC { depth: 1, idx: i as u64, val: *v as u64 }).collect();
+      let skipped: u64 = vals.iter().filter(|v| v.is_finite() && **v > 0.0 && **v <= skip).map(|v| *v as u64).sum();
+      let total: u64 = kept.iter().map(|c| c.val).sum::<u64>() + skipped;
+      for (from, to) in [(0u64, 40u64), (16, 100), (skipped, total), (0, total), (total / 2, total - 8), (3, 60)] {
+        for mode in 0..8u32 {
+          let (asc, strict, rev) = (mode & 1 == 1, mode & 2 == 2, mode & 4 == 4);
+          let res = std::panic::catch_unwind(AssertUnwindSafe(|| from_fits_skymap(BufReader::new(Cursor::new(f.clone())), skip, from as f64, to as f64, asc, strict, true, rev)));
+          // the same selection on the kept cells: thresholds shifted by the skipped value in ascending order only
+          let (mf, mt) = if asc { (from.saturating_sub(skipped), to.saturating_sub(skipped)) } else { (from, to) };
+          let b = |x: bool| if x { "1" } else { "0" };
+          let txt = kept.iter().map(|c| format!("{}/{}/{}/{}", c.depth, c.idx, c.val, c.val as u128 * 4)).collect::<Vec<_>>().join(",");
+          let op = format!("vsel 1 {} {} {} {} {} 1 {}", txt, mf, mt, b(asc), b(strict), b(rev));
+          sink.count("skymap-reader:case");
+          match res {
+            Ok(Ok(m)) => sink.emit(&op, &fmt_ranges(&to_u64_ranges(&m.moc_ranges().0 .0)), true),
+            Ok(Err(e)) => sink.emit(&op, &format!("err {}", e.to_string().replace(' ', "_")), true),
+            Err(_) => sink.emit(&op, "fault", true),
+          }
+        }
+      }
+    }
+  }
+}
+
 pub fn run(sink: &mut Sink, rng: &mut Rng, thorough: bool) {
+  skymap_cases(sink);
   let n = if thorough { 20000 } else { 500 };
   for i in 0..n {
     let max_depth = 1 + rng.below(2) as u8; // 1 or 2
